@@ -7,7 +7,7 @@ from ..core import rule
 from ..index import AnalysisError, dotted, src, walk_no_nested, names_in
 from ..cfg import CFG, UNK
 from ..domains import check_pred, eval_pred, cmp_atoms, NotComparisonOnly
-from ..util import node_calls, own_expr, truthiness_uses, explore
+from ..util import node_calls, own_expr, truthiness_uses, explore, outcomes_by_case
 from .slots import COUNTTABLE, BASEDEMUX
 
 RS = 'read_should_be_counted'
@@ -69,11 +69,11 @@ def r1(ctx):
                        'with default None are tested with `is not None` (0 is a legal value), never by truthiness')
 def r2(ctx):
     f = ctx.fn(COUNTTABLE, RS)
-    rt = [s for s in walk_no_nested(f) if isinstance(s, ast.Return)]
-    trues = [s for s in rt if isinstance(s.value, ast.Constant) and s.value.value is True]
-    other = [s for s in rt if not (isinstance(s.value, ast.Constant) and s.value.value in (True, False))]
-    ok = len(trues) == 1 and f.body[-1] is trues[0] and not other
-    ctx.emit('C11-R2', ok, COUNTTABLE, f, f'{RS}: {len(rt) - len(trues)} rejecting returns, `return True` only as last statement', key='reject-only')
+    # with every filter switched off and an ordinary mapped read the function accepts; each filter can only turn that into a rejection (C11-R4
+    # decides the predicates) - stated on the outcome of the decision procedure, not on the position of `return True`
+    outs = {o for c_, os_ in outcomes_by_case(f.body, [dict(BASE_CASE)], filter_atom, facts=dict(BASE_FACTS)) for o in os_}
+    ok = outs == {('return', True)}
+    ctx.emit('C11-R2', ok, COUNTTABLE, f, f'{RS}: with all filters off a mapped, non-failed read is accepted on every path ({sorted(map(str, outs))})', key='reject-only')
     opts = options(ctx)
     numeric_none = {d for d, o in opts.items() if o['type'] in ('int', 'float') and o['default'] in (None, '<none>')}
     bad = []
@@ -125,48 +125,73 @@ def r3(ctx):
                        'soft clips, edit distance, duplicates / rejected reads)')
 def r4(ctx):
     f = ctx.fn(COUNTTABLE, RS)
-    ifs = [s for s in f.body if isinstance(s, ast.If)]
-    by = {}
-    for s in ifs:
-        by[src(s.test)] = s
-
-    def find(pred):
-        hit = [s for t, s in by.items() if pred(t)]
-        return hit[0] if len(hit) == 1 else None
-
     specs = [
-        ('r1only', lambda t: 'args.r1only' in t, {'args.r1only': 'o', 'read.is_read2': 'x'}, [], lambda e: e['o'] and e['x']),
-        ('r2only', lambda t: 'args.r2only' in t, {'args.r2only': 'o', 'read.is_read1': 'x'}, [], lambda e: e['o'] and e['x']),
-        ('minMQ', lambda t: 'args.minMQ' in t, {'read.mapping_quality': 'mq', 'args.minMQ': 'min'}, ['mq', 'min'], lambda e: e['mq'] < e['min']),
-        ('proper_pairs_only', lambda t: 'proper_pairs_only' in t, {'args.proper_pairs_only': 'o', 'read.is_proper_pair': 'x'}, [], lambda e: e['o'] and not e['x']),
-        ('no_indels', lambda t: 'no_indels' in t, {'args.no_indels': 'o', "'I' in read.cigarstring": 'i', "'D' in read.cigarstring": 'd'}, [], lambda e: e['o'] and (e['i'] or e['d'])),
-        ('no_softclips', lambda t: 'no_softclips' in t, {'args.no_softclips': 'o', "'S' in read.cigarstring": 's'}, [], lambda e: e['o'] and e['s']),
-        ('max_base_edits', lambda t: 'max_base_edits' in t, {'args.max_base_edits is not None': 'o', "read.has_tag('NM')": 'h', "int(read.get_tag('NM'))": 'nm', 'args.max_base_edits': 'lim'},
-         ['nm', 'lim'], lambda e: e['o'] and e['h'] and e['nm'] > e['lim']),
-        ('dedup', lambda t: 'args.dedup' in t, {'read.is_unmapped': 'u', 'args.dedup': 'o', 'read.has_tag("RR")': 'rr', "read.has_tag('RR')": 'rr', 'read.is_duplicate': 'dup'}, [],
-         lambda e: e['u'] or (e['o'] and (e['rr'] or e['dup']))),
-        ('qcfail', lambda t: 'is_qcfail' in t, {'read is None': 'n', 'read.is_qcfail': 'q', 'read.is_unmapped': 'u'}, [], lambda e: e['n'] or e['q'] or e['u']),
+        ('r1only', {'args.r1only': 'o', 'read.is_read2': 'x'}, [], lambda e: e['o'] and e['x']),
+        ('r2only', {'args.r2only': 'o', 'read.is_read1': 'x'}, [], lambda e: e['o'] and e['x']),
+        ('minMQ', {}, ['mq', 'min'], lambda e: e['mq'] < e['min']),
+        ('proper_pairs_only', {'args.proper_pairs_only': 'o', 'read.is_proper_pair': 'x'}, [], lambda e: e['o'] and not e['x']),
+        ('no_indels', {'args.no_indels': 'o', "'I' in read.cigarstring": 'i', "'D' in read.cigarstring": 'd'}, [], lambda e: e['o'] and (e['i'] or e['d'])),
+        ('no_softclips', {'args.no_softclips': 'o', "'S' in read.cigarstring": 's'}, [], lambda e: e['o'] and e['s']),
+        ('max_base_edits', {'args.max_base_edits is not None': 'o', "read.has_tag('NM')": 'h'}, ['nm', 'lim'], lambda e: e['o'] and e['h'] and e['nm'] > e['lim']),
+        ('dedup', {'args.dedup': 'o', "read.has_tag('RR')": 'rr', 'read.is_duplicate': 'dup'}, [], lambda e: e['o'] and (e['rr'] or e['dup'])),
+        ('qcfail', {'read is None': 'n', 'read.is_qcfail': 'q', 'read.is_unmapped': 'u'}, [], lambda e: e['n'] or e['q'] or e['u']),
+        ('filterXA', {'args.filterXA': 'o', 'read_has_alternative_hits_to_non_alts(read)': 'x'}, [], lambda e: e['o'] and e['x']),
+        ('filterMP', {'args.filterMP': 'o', "read.has_tag('mp')": 'h', "read.get_tag('mp') != 'unique'": 'nu'}, [], lambda e: e['o'] and ((not e['h']) or e['nu'])),
     ]
     n = 0
-    for name, pick, ren, syms, spec in specs:
-        s = find(pick)
-        if s is None:
-            ctx.emit('C11-R4', False, COUNTTABLE, f, f'filter arm for {name} not found (or ambiguous)', key=f'predicate:{name}')
-            continue
+    for name, ren, syms, spec in specs:
+        # decision procedure: all other filters off, this filter's atoms range over every combination; the read is rejected iff the documented
+        # predicate holds - independent of how the test is nested, split or merged with its neighbours
+        bools = sorted(set(ren.values()))
+        inv = {}
+        for t_, b_ in ren.items():
+            inv.setdefault(b_, []).append(t_)
+        bad = []
+        ncase = 0
+        for bv in itertools.product((True, False), repeat=len(bools)):
+            benv = dict(zip(bools, bv))
+            if name == 'qcfail' and benv.get('n'):
+                # a missing read: nothing else may be evaluated on it; only the outcome counts
+                pass
+            facts = dict(BASE_FACTS)
+            for b_, texts in inv.items():
+                for t_ in texts:
+                    facts[t_] = benv[b_]
+            if name == 'max_base_edits':
+                facts['args.max_base_edits is None'] = not benv['o']
+            numcases = [dict(BASE_CASE)]
+            if syms:
+                numcases = [dict(BASE_CASE, **dict(zip(syms, v))) for v in itertools.product(range(-1, 3), repeat=len(syms))]
+            for case, outs in outcomes_by_case(f.body, numcases, filter_atom, facts=facts):
+                ncase += 1
+                e = dict(benv, **case)
+                want = not spec(e)
+                got = {bool(v) if isinstance(v, (bool, int)) else v for k_, v in outs if k_ == 'return'}
+                if (got != {want} or any(k_ != 'return' for k_, v in outs)) and len(bad) < 3:
+                    bad.append({'case': {k_: e[k_] for k_ in list(benv) + syms}, 'outcomes': sorted(map(str, outs)), 'documented_accept': want})
         n += 1
-        rej = s.body and isinstance(s.body[0], ast.Return) and src(s.body[0].value) == 'False'
-        try:
-            ncase, bad = check_pred(s.test, spec, symbols=syms or [], atom_name=lambda x, ren=ren: ren.get(src(x)),
-                                    extra_consts=(0, 1), extra_bools=[v for v in set(ren.values()) if v not in syms])
-            ctx.counters['abstract_cases'] += ncase
-            ctx.emit('C11-R4', not bad and rej, COUNTTABLE, s, f'{name}: `{src(s.test)}` over {ncase} cases ' + ('== documented predicate, rejects' if not bad and rej else
-                     (f'differs at {bad[0]["case"]} (code rejects: {bad[0]["code"]}, documented: {bad[0]["spec"]})' if bad else 'does not return False')), key=f'predicate:{name}',
-                     witness=bad[0] if bad else None)
-        except AnalysisError as ex:
-            ctx.emit('C11-R4', False, COUNTTABLE, s, f'{name}: `{src(s.test)}` not interpretable with the known atoms: {ex}', key=f'predicate:{name}',
-                     witness={'unexpected': str(ex)})
+        ctx.counters['abstract_cases'] += ncase
+        ctx.emit('C11-R4', not bad, COUNTTABLE, f, f'{name}: over {ncase} cases the read is rejected iff the documented predicate holds' if not bad else
+                 f'{name}: differs at {bad[0]["case"]}: outcomes {bad[0]["outcomes"]}, documented: {"accept" if bad[0]["documented_accept"] else "reject"}', key=f'predicate:{name}',
+                 witness=bad[0] if bad else None)
     ctx.need('C11-R4', n, 8, 'filter predicates')
     ctx.exhaustive['C11-R4'] = True
+
+
+# every filter off, an ordinary mapped read: the baseline under which one filter at a time is varied
+BASE_FACTS = {'args.r1only': False, 'args.r2only': False, 'args.filterMP': False, 'read is None': False, 'read.is_qcfail': False, 'read.is_unmapped': False,
+              'args.proper_pairs_only': False, 'args.no_indels': False, 'args.max_base_edits is not None': False, 'args.max_base_edits is None': True,
+              'args.no_softclips': False, 'args.filterXA': False, 'args.dedup': False, 'blacklist_dic is not None': False, 'blacklist_dic is None': True,
+              'read.is_read1': True, 'read.is_read2': False, 'read.is_proper_pair': True, "read.has_tag('NM')": False, "read.has_tag('RR')": False, 'read.is_duplicate': False,
+              "'I' in read.cigarstring": False, "'D' in read.cigarstring": False, "'S' in read.cigarstring": False,
+              'read_has_alternative_hits_to_non_alts(read)': False, "read.has_tag('mp')": True, "read.get_tag('mp') != 'unique'": False}
+BASE_CASE = {'mq': 1, 'min': 0, 'nm': 0, 'lim': 1}
+
+
+def filter_atom(x):
+    if isinstance(x, ast.Compare):
+        return None
+    return {'read.mapping_quality': 'mq', 'args.minMQ': 'min', "int(read.get_tag('NM'))": 'nm', 'args.max_base_edits': 'lim'}.get(src(x).replace('"', "'"))
 
 
 class Sym:
@@ -339,8 +364,19 @@ def r6(ctx):
     ctx.need('C11-R6', len(loops), 1, 'blacklist scan loops in read_should_be_counted')
     for l in loops:
         brk = [x for x in walk_no_nested(l) if isinstance(x, ast.Break)]
-        ctx.emit('C11-R6', not brk, COUNTTABLE, brk[0] if brk else l, 'the blacklist scan visits every interval of the contig until one contains the read' if not brk else
-                 'the blacklist scan stops early (`break`): intervals listed after that point are never consulted (the list is in file order, not sorted)',
+        # leaving the scan is fine when the read was found inside an interval (the function then rejects it); any other early exit skips intervals
+        early = []
+        if brk:
+            top = [s_ for s_ in g.body if any(x is l for x in ast.walk(s_))]
+            region = g.body[g.body.index(top[0]):] if top else [l]
+            rs = explore(region, lambda e: UNK, mark=lambda nd: 'break' if isinstance(nd.ast, ast.Break) and any(nd.ast is b_ for b_ in brk) else None)
+            for r in rs:
+                if any(t == '<mark>' for t, v, k in r['stores']):
+                    rejects = r['kind'] == 'return' and r['stmt'] is not None and r['stmt'].value is not None and (src(r['stmt'].value) == 'False' or r.get('retval') is False)
+                    if not rejects:
+                        early.append(r)
+        ctx.emit('C11-R6', not early, COUNTTABLE, brk[0] if early else l, 'the blacklist scan visits every interval of the contig until one contains the read (which is then rejected)' if not early else
+                 'the blacklist scan stops early (`break`) on a path that does not reject the read: intervals listed after that point are never consulted (the list is in file order, not sorted)',
                  key='blacklist-scan-complete', what='read_should_be_counted: the blacklist scan has an early exit')
 
 
